@@ -347,7 +347,10 @@ FAULTS = ["hostkey-swap", "hostkey-other-type", "hostkey-bitflip", "pub-changed"
           "pub-reencoded", "sig-alg-case", "hostkey-name-case", "sig-mpint-pad",
           # not a corruption: the signature a conforming non-paramiko server would send (made with the cryptography
           # primitives and the RFC hash for the algorithm) -- the client MUST accept it
-          "sig-independent"]
+          "sig-independent",
+          # the key owner signs the right H, but with ANOTHER algorithm of the same key family than the negotiated one
+          "sig-other-alg-same-key"]
+RSA_ALGS = ("ssh-rsa", "rsa-sha2-256", "rsa-sha2-512")
 
 
 def value_level(fault, fam):
@@ -361,6 +364,8 @@ def must_accept(fault):
 
 
 def fault_applies(fault, alg):
+    if fault == "sig-other-alg-same-key":
+        return alg in RSA_ALGS
     return fault != "sig-mpint-pad" or alg.startswith("ecdsa-")
 
 
@@ -490,6 +495,10 @@ def tamper(fault, fam, cls, payload, alg, keys, get_H, rng):
         sig = swapcase_first_field(sig)
     elif fault == "hostkey-name-case":
         ks = swapcase_first_field(ks)
+    elif fault == "sig-other-alg-same-key":
+        if alg in RSA_ALGS:
+            oth = [a for a in RSA_ALGS if a != alg][rng.randrange(2)]
+            sig = key.sign_ssh_data(get_H(), oth).asbytes()
     elif fault == "sig-independent":
         sig = independent_sign(alg, key, get_H())
         if alg.startswith("rsa") or alg in ("ssh-rsa", "ssh-ed25519"):
@@ -743,7 +752,8 @@ def run_direct(ctx, keys, model_cases, dh_cases):
         for fault, nex in plan:
             alg = algs[(ei + 2 * FAULTS.index(fault) + nex) % len(algs)] if not T else rng.choice(algs)
             if not fault_applies(fault, alg):
-                alg = [a for a in algs if a.startswith("ecdsa-")][(ei + nex) % 3]
+                pool = [a for a in algs if fault_applies(fault, a)]
+                alg = pool[(ei + nex) % len(pool)]
             case = {"mode": "direct", "kex": name, "hostkey": alg, "old_style": False, "fault": fault, "exchange": nex}
             o = direct_exchange(name, cls, fam, alg, keys, rng, fault, exchanges=nex)
             ctx.count(("direct-fault", name, alg, fault, nex), nontrivial=o["fault_applied"],
@@ -1225,6 +1235,135 @@ def run_connect(ctx, keys, pin_cases):
     return n
 
 
+# ----------------------------------------------------------------------------- (e) SSHClient.connect / known_hosts
+
+CLIENT_VARIANTS = ["known-same", "known-other-same-type", "known-other-type-only", "known-two-other-types", "unknown-host"]
+POLICIES = ["AutoAddPolicy", "WarningPolicy", "RejectPolicy"]
+
+
+def sshclient_once(name, alg, keys, variant, policy, system, port, rng):
+    """SSHClient.connect(sock=...) towards a server holding keys[alg][0], with known_hosts prepared per variant."""
+    import warnings
+    import paramiko
+    from _loop import LoopSocket
+    from paramiko.kex_group14 import KexGroup14
+    key, other = keys[alg]
+    others = [k for a, (k, _) in sorted(keys.items()) if k.get_name() != key.get_name()]
+    uniq = {}
+    for k in others:
+        uniq.setdefault(k.get_name(), k)
+    others = [uniq[n] for n in sorted(uniq)]
+    known = {"known-same": [key], "known-other-same-type": [other],
+             "known-other-type-only": [others[rng.randrange(len(others))]],
+             "known-two-other-types": others[:2], "unknown-host": []}[variant]
+
+    class Srv(paramiko.ServerInterface):
+        def __init__(self):
+            self.auth = []
+
+        def get_allowed_auths(self, username):
+            return "password"
+
+        def check_auth_password(self, username, password):
+            self.auth.append(("password", username, password))
+            return paramiko.AUTH_SUCCESSFUL
+
+    host = "verifhost.example"
+    entry = host if port == 22 else "[%s]:%d" % (host, port)
+    a, b = LoopSocket(), LoopSocket()
+    a.link(b)
+    ts = paramiko.Transport(b)
+    srv = Srv()
+    client = paramiko.SSHClient()
+    store = client._system_host_keys if system else client.get_host_keys()
+    for k in known:
+        store.add(entry, k.get_name(), k)
+    client.set_missing_host_key_policy(getattr(paramiko, policy)())
+
+    def snapshot():
+        return sorted((h, t, k.asbytes()) for hk in (client._system_host_keys, client.get_host_keys())
+                      for h in hk.keys() for t, k in hk[h].items())
+    before = snapshot()
+    out = {"exc": None}
+    try:
+        ts.get_security_options().kex = [name]
+        ts.add_server_key(key)
+        if "group-exchange" in name:
+            ts._modulus_pack = Pack(KexGroup14.G, KexGroup14.P)
+            ts.get_security_options().kex = [name]
+        ts.start_server(event=threading.Event(), server=srv)
+        with warnings.catch_warnings():
+            warnings.simplefilter("ignore")
+            try:
+                client.connect(host, port=port, username="verif", password="s3cret-" + variant, sock=a,
+                               look_for_keys=False, allow_agent=False, timeout=30)
+            except Exception as e:   # noqa: the client's reaction is the observable
+                out["exc"] = e
+                time.sleep(0.15)
+        out["auth_seen"] = list(srv.auth)
+        out["stored_changed"] = snapshot() != before
+        out["known"] = [(k.get_name(), k.asbytes()) for k in known]
+        out["server"] = (key.get_name(), key.asbytes())
+        return out
+    finally:
+        client.close()
+        ts.close()
+        a.close()
+        b.close()
+
+
+def check_sshclient(ctx, variant, policy, o, case):
+    accepted = o["exc"] is None
+    if variant == "known-same":
+        if not accepted or len(o["auth_seen"]) != 1:
+            ctx.fail("known-host-key-rejected", "SSHClient.connect to a host whose key is in known_hosts failed: %r" % (o["exc"],),
+                     case=case, expected="connected", observed=repr(o["exc"]))
+    elif variant == "unknown-host":
+        if policy == "RejectPolicy" and (accepted or o["auth_seen"]):
+            ctx.fail("unknown-host-accepted-under-reject", "RejectPolicy let an unknown host through", case=case)
+    else:
+        # known_hosts has key(s) for this host and the server shows a DIFFERENT key: swapped -> abort, whatever the policy
+        if accepted or o["auth_seen"] or o["stored_changed"]:
+            ctx.fail("known-host-key-swapped-accepted:" + variant,
+                     "SSHClient.connect (%s): known_hosts has %s for the host, the server presented a different key (%s) and the "
+                     "client %s" % (policy, [n for n, _ in o["known"]], o["server"][0],
+                                    "connected and sent credentials" if accepted or o["auth_seen"] else "stored the new key"),
+                     case=case, expected="BadHostKeyException before any authentication request, known_hosts unchanged",
+                     observed={"exception": repr(o["exc"]), "auth_requests_seen_by_server": len(o["auth_seen"]),
+                               "known_hosts_changed": o["stored_changed"]})
+
+
+def run_sshclient(ctx, keys):
+    from paramiko.transport import Transport
+    rng = ctx.rng
+    eng = {n: (c, f) for n, c, f in engines()}
+    light = [n for n in Transport._preferred_kex if n in eng and "group16" not in n and "group-exchange" not in n]
+    types = {}
+    for alg in sorted(keys):
+        types.setdefault(keys[alg][0].get_name(), alg)
+    algs = sorted(types.values())
+    n = 0
+    k = ctx.seed
+    for vi, variant in enumerate(CLIENT_VARIANTS):
+        for pi, policy in enumerate(POLICIES):
+            reps = len(algs) if ctx.thorough else 1
+            for rep in range(reps):
+                alg = algs[(vi + 2 * pi + rep + k) % len(algs)]
+                nm = light[(vi * 3 + pi + rep + k) % len(light)]
+                system = (vi + pi + rep) % 2 == 0
+                port = 22 if (vi + rep) % 3 else 2222
+                case = {"mode": "sshclient", "kex": nm, "hostkey": alg, "variant": variant, "policy": policy,
+                        "system": system, "port": port}
+                st, o = with_watchdog(lambda: sshclient_once(nm, alg, keys, variant, policy, system, port, rng), 60)
+                if st != "ok":
+                    ctx.notes.append("SSHClient run %r did not finish: %s %r" % (case, st, o))
+                    continue
+                ctx.count(("sshclient", nm, alg, variant, policy, system, port), kind="sshclient:" + variant)
+                n += 1
+                check_sshclient(ctx, variant, policy, o, case)
+    return n
+
+
 # ----------------------------------------------------------------------------- run / replay
 
 def compare_models(ctx, model_cases, dh_cases, latch_cases, pin_cases=()):
@@ -1273,7 +1412,11 @@ def run(ctx):
                 "the cryptography primitives and the RFC hash of the negotiated algorithm, no paramiko key class involved; every fault x every host key algorithm) -- on the initial exchange or on the 2nd / 3rd exchange (re-key) of the same transports; (d) "
                 "Transport.connect(hostkey=pinned, password | pkey) towards a server holding the pinned key / the same key "
                 "re-loaded / another key of the same type / a key of another type, per host key type: a differing key must "
-                "raise before the server sees any authentication request.  "
+                "raise before the server sees any authentication request; (e) SSHClient.connect(sock=...) with known_hosts "
+                "(system or user store, port 22 or 2222) holding the server's key / another key of the same type / only keys of "
+                "other types / nothing, under AutoAdd / Warning / Reject policy: a host with recorded keys showing a different key "
+                "must raise before authentication and leave known_hosts unchanged.  The in-flight grid also has the right H signed "
+                "by the key owner with ANOTHER algorithm of the same key family (ssh-rsa / rsa-sha2-256 / -512) as a must-abort fault.  "
                 "Every key a transport installs (_compute_key result) is compared with an independent RFC 4253 7.2 "
                 "derivation whose session id is the FIRST exchange hash.  A case is non-trivial when distinct and, for tamper runs, when the reply really changed")
     ctx.trusted += ["gen/c06.py translator (fail-closed): layout / reply_sent / reply_read / setkh_prog / verify_over in Gen/C06_gen.v",
@@ -1300,6 +1443,9 @@ def run(ctx):
         pin_cases = []
         n = run_connect(ctx, keys, pin_cases)
         ctx.log("Transport.connect(hostkey=...): %d connections in %.1fs" % (n, time.time() - t0))
+        t0 = time.time()
+        n = run_sshclient(ctx, keys)
+        ctx.log("SSHClient.connect / known_hosts: %d connections in %.1fs" % (n, time.time() - t0))
     ctx.traces = len(model_cases) + len(dh_cases) + len(latch_cases) + len(BANNER_CASES) + len(pin_cases)
     compare_models(ctx, model_cases, dh_cases, latch_cases, pin_cases)
 
@@ -1316,7 +1462,12 @@ def replay(ctx, rep):
     with hash_recording():
         for attempt in range(3):
             ctx.count(("replay", attempt, str(case)))
-            if case.get("mode") == "connect":
+            if case.get("mode") == "sshclient":
+                st, o = with_watchdog(lambda: sshclient_once(case["kex"], alg, keys, case["variant"], case["policy"],
+                                                             bool(case.get("system")), int(case.get("port") or 22), ctx.rng), 60)
+                if st == "ok":
+                    check_sshclient(ctx, case["variant"], case["policy"], o, case)
+            elif case.get("mode") == "connect":
                 st, o = with_watchdog(lambda: connect_once(case["kex"], alg, keys, case["variant"], bool(case.get("pkey")),
                                                            ctx.rng), 60)
                 if st == "ok":
